@@ -764,11 +764,16 @@ fn run_job<Ef: CapEffect>(job: Job, caps: Option<&d::Capabilities>) -> Command<E
     }
 }
 
+/// the heap-occupancy monitor (C13) switches the app's own log off: it grows by design
+pub static KEEP_LOG: std::sync::atomic::AtomicBool = std::sync::atomic::AtomicBool::new(true);
+
 fn apply<Ef: CapEffect>(event: Event, model: &mut Model, caps: Option<&d::Capabilities>) -> Command<Ef, Event> {
     match event {
         Event::Do(job) => run_job(job, caps),
         Event::Got(o) => {
-            model.log.push(o);
+            if KEEP_LOG.load(std::sync::atomic::Ordering::Relaxed) {
+                model.log.push(o);
+            }
             Command::done()
         }
     }
